@@ -773,6 +773,31 @@ func writeTranslations(repo, outdir string, fset *token.FileSet, parse func(stri
 		"Write", "WriteString", "WriteByte", "WriteRune", "RedactableBytes", "RedactableString", "String", "TakeRedactableBytes", "Len"} {
 		emit("internal/buffer/buffer.go", "Buffer", n, n, bconsts, bctypes)
 	}
+	// builder/builder.go: the StringBuilder's SafeWriter methods that do not go through the printer
+	// (Print, Printf, SafeInt, SafeUint, SafeFloat call rfmt.Fprint/Fprintf: not translated)
+	{
+		sbFile := parse("builder/builder.go")
+		sbConsts := map[string]int64{}
+		for k, v := range cints {
+			sbConsts[k] = v
+		}
+		sbConsts["ib.UnsafeEscaped"], sbConsts["ib.SafeEscaped"], sbConsts["ib.PreRedactable"], sbConsts["ib.SafeRaw"] =
+			int64(buffer.UnsafeEscaped), int64(buffer.SafeEscaped), int64(buffer.PreRedactable), int64(buffer.SafeRaw)
+		saved := cints
+		cints = sbConsts
+		for _, n := range []string{"Write", "WriteString", "WriteByte", "WriteRune", "SafeString", "SafeRune", "SafeByte", "SafeBytes",
+			"UnsafeString", "UnsafeRune", "UnsafeByte", "UnsafeBytes"} {
+			fd := find(sbFile, "StringBuilder", n)
+			if fd == nil {
+				allBad = append(allBad, "missing StringBuilder."+n)
+				continue
+			}
+			txt, bad := translateFunc(fset, fd, "SB_"+n, bconsts, cints, bctypes, methods)
+			fmt.Fprintf(&sb, "/-- translated from builder/builder.go: func (*StringBuilder) %s -/\n%s\n", n, txt)
+			allBad = append(allBad, bad...)
+		}
+		cints = saved
+	}
 	// internal/escape/escape.go: the scanner, with its loops and index arithmetic (loop mode)
 	{
 		f := parse("internal/escape/escape.go")
